@@ -142,9 +142,30 @@ func matchCompTimeRange(start, end time.Time, comp *ical.Component) (bool, error
 		return false, err
 	}
 	if rset != nil {
-		// TODO we can only set inclusive to true or false, but really the
-		// start time is inclusive while the end time is not :/
-		return len(rset.Between(start, end, true)) > 0, nil
+		// Every instance lasts as long as the first one. An instance overlaps
+		// the time range under the same rules as a non-recurring event, so it
+		// is enough to look at the first instance which ends after the range
+		// start (or starts no earlier than it, for zero-length instances).
+		var dur time.Duration
+		if comp.Name == ical.CompEvent {
+			event := ical.Event{comp}
+			eventStart, err := event.DateTimeStart(start.Location())
+			if err != nil {
+				return false, err
+			}
+			eventEnd, err := event.DateTimeEnd(start.Location())
+			if err != nil {
+				return false, err
+			}
+			dur = eventEnd.Sub(eventStart)
+		}
+		var inst time.Time
+		if dur > 0 {
+			inst = rset.After(start.Add(-dur), false)
+		} else {
+			inst = rset.After(start, true)
+		}
+		return !inst.IsZero() && (end.IsZero() || inst.Before(end)), nil
 	}
 
 	// TODO handle more than just events
